@@ -8,6 +8,7 @@
 (* a stack of frames; one action per step of the code:                     *)
 (*   chk   pipeline.executeStage: isCompleted() test                       *)
 (*   reg   stateMachine.executeStage: pending++, stage recorded            *)
+(*   plan  stage.Plan() on the caller's goroutine, then inline / pool       *)
 (*   exec  stage body (baseStage.execute of the plan tree)                 *)
 (*   next  completeHandle: NextStages(), one executeStage per child        *)
 (*   fin   completeStage, part under the mutex (state, first error)        *)
@@ -65,16 +66,33 @@ Chk(t) ==
   /\ UNCHANGED <<pending, registered, done, completed, cbCount, cbErr, errSeen, anyErr>>
   /\ Static
 
-\* stateMachine.executeStage, then stage.Execute: inline or submitted to the pool
+\* stateMachine.executeStage: pending++, the stage is recorded
 Register(t) ==
   /\ Has(t, "reg")
   /\ LET s == Top(t).s IN
      /\ pending' = pending + 1
      /\ registered' = registered \cup {s}
-     /\ stacks' = IF async[s]
-                    THEN [stacks EXCEPT ![t] = Pop(t), ![s] = << [k |-> "exec", s |-> s] >>]
-                    ELSE Replace(t, [k |-> "exec", s |-> s])
+     /\ stacks' = Replace(t, [k |-> "plan", s |-> s])
   /\ UNCHANGED <<done, completed, cbCount, cbErr, errSeen, anyErr>>
+  /\ Static
+
+\* stage.Plan() is evaluated on the CALLER's goroutine (argument of stage.Execute), then
+\* stage.Execute runs the body inline or submits it to the pool
+Plan(t) ==
+  /\ Has(t, "plan")
+  /\ LET s == Top(t).s IN
+     IF outcome[s] = "planpanic"
+       THEN /\ anyErr' = TRUE
+            /\ stacks' = IF RecoverPerStage
+                            THEN Replace(t, [k |-> "fin", s |-> s, e |-> TRUE])
+                          ELSE IF t = "main"
+                            THEN [stacks EXCEPT ![t] = << [k |-> "mainc", s |-> s] >>]
+                            ELSE [stacks EXCEPT ![t] = << [k |-> "fin", s |-> t, e |-> TRUE] >>]
+       ELSE /\ UNCHANGED anyErr
+            /\ stacks' = IF async[s]
+                            THEN [stacks EXCEPT ![t] = Pop(t), ![s] = << [k |-> "exec", s |-> s] >>]
+                            ELSE Replace(t, [k |-> "exec", s |-> s])
+  /\ UNCHANGED <<pending, registered, done, completed, cbCount, cbErr, errSeen>>
   /\ Static
 
 \* the stage body
@@ -148,11 +166,11 @@ MainComplete ==
   /\ UNCHANGED <<pending, registered, done, errSeen, anyErr>>
   /\ Static
 
-Step(t) == Chk(t) \/ Register(t) \/ Exec(t) \/ Next1(t) \/ FinMark(t) \/ FinDec(t) \/ FinEnd(t)
+Step(t) == Chk(t) \/ Register(t) \/ Plan(t) \/ Exec(t) \/ Next1(t) \/ FinMark(t) \/ FinDec(t) \/ FinEnd(t)
 Next == (\E t \in Thread : Step(t)) \/ MainComplete
 
 Quiescent == \A t \in Thread : stacks[t] = << >>
-NoPanic == \A s \in Stage : outcome[s] # "panic"
+NoPanic == \A s \in Stage : outcome[s] \notin {"panic", "planpanic"}
 
 \* ---------------------------------------------------------------- C19
 AtMostOnce == cbCount <= 1
